@@ -11,7 +11,7 @@ GROUP_CLASSES = [
     "ContainerGroup", "SimPEGGroup", "UIJsonGroup", "GiftoolsGroup", "NoTypeGroup", "AirborneGeophysics",
     "IntegratorGroup", "IntegratorProject", "QueryGroup", "AirborneTheme", "EarthModelsTheme",
     "GeochemistryMineralogyDataSet", "GeochemistryMineralogyTheme", "GeophysicsTheme", "GroundTheme",
-    "ObservationPointsTheme", "RockPropertiesTheme", "SamplesTheme",
+    "ObservationPointsTheme", "RockPropertiesTheme", "SamplesTheme", "DrillholeGroup", "IntegratorDrillholeGroup",
 ]
 # object classes grouped by the geometry builder they use
 POINT_LIKE = ["Points", "IntegratorPoints", "AirborneMagnetics", "MTReceivers", "TipperReceivers",
